@@ -186,8 +186,12 @@ def main(argv):
     EVDIR = os.environ.get("VERIF_EVIDENCE_DIR") or os.path.join(HERE, "evidence")
     os.makedirs(os.path.join(HERE, "replays"), exist_ok=True)
     os.makedirs(EVDIR, exist_ok=True)
+    seen_kf = set()
     for kf, key, name in known_hits:
-        print("KNOWN-FINDING: property=%s %s (%s %s)" % (pid, kf.get("what", ""), key, name))
+        if kf.get("id") in seen_kf:
+            continue
+        seen_kf.add(kf.get("id"))
+        print("KNOWN-FINDING: property=%s %s [%s: %s %s]" % (pid, kf.get("what", ""), kf.get("id"), key, name))
     vio_lines = []
     for n, (key, name, g, why) in enumerate(violations):
         path = os.path.join(HERE, "replays", "%s-%d.json" % (pid, n))
@@ -235,7 +239,7 @@ def main(argv):
         "bounded_standins": [{k: v for k, v in br.items() if k not in ("violations", "samples")} for br in bounded_results],
         "undecided_functions": [{"function": k, "reason": r[:300]} for k, r in undecided],
         "open_unknown_obligations": [{"function": k, "obligation": n} for k, n, _ in open_unknown],
-        "known_findings_hit": [kf.get("id") for kf, _, _ in known_hits],
+        "known_findings_hit": sorted(set(kf.get("id") for kf, _, _ in known_hits)),
         "not_covered": prop.get("not_covered", []),
         "samples": samples or [{"note": "no obligations"}],
         "vacuity": {"functions_with_paths": sum(1 for f in funcs if f["paths"] > 0), "functions": len(funcs)},
@@ -259,7 +263,7 @@ def main(argv):
         print("baseline updated: %d obligations" % len(base["obligations"]))
 
     print("# %s %s: %d functions, %d obligations (%d path instances), %d discharged, %d violations, %d known findings, %d open, %d undecided functions, %.1fs"
-          % (pid, tier, len(funcs), n_ob, inst, n_dis, len(violations), len(known_hits), len(open_unknown), len(undecided), time.time() - t0))
+          % (pid, tier, len(funcs), n_ob, inst, n_dis, len(violations), len(seen_kf), len(open_unknown), len(undecided), time.time() - t0))
     if violations:
         return 1
     if checker_failure or errors:
